@@ -171,6 +171,25 @@ def run_rebin(case, ctx):
     if abs(sum(R) - over) > 10 * rtol * tot + 1e-300:
         fail('sum of the rebinned response %r != integral of the filter over the overlap %r' % (sum(R), over),
              'c06:sum_not_overlap_integral')
+    # (b') the filter object that was just used gets new frequencies with the same number of samples (the band moved to a
+    #      redshifted position, a corrected unit): the next rebin follows the curve the filter holds NOW, and moving it back
+    #      gives the first answer again
+    nu_before = f.nu
+    with must_succeed('assigning new frequencies to a used filter and re-binning'):
+        f.nu = nu_before / 1.25
+        fnu2 = [float(v) for v in f.nu.to(u.Hz).value]
+        g2 = f.rebin(np.array(snu) * u.Hz)
+    ref2, total2 = om.rebin_reference(fnu2, resp, snu)
+    for i, (got, want) in enumerate(zip([float(v) for v in g2.response], ref2)):
+        if abs(got - float(want)) > 1e-9 * max(tot, float(total2)) + 1e-300:
+            fail('after the frequencies of a used filter were re-assigned (shifted by 1/1.25), R[%d] = %r but the exact integral of '
+                 'the current curve over that bin is %r' % (i, got, float(want)), 'c06:stale_after_nu_assignment')
+    with must_succeed('restoring the frequencies and re-binning'):
+        f.nu = nu_before
+        g3 = f.rebin(np.array(snu) * u.Hz)
+    if any(abs(float(a) - b) > rtol * tot + 1e-300 for a, b in zip(g3.response, R)):
+        fail('after the frequencies were moved and restored the rebinned response differs from the first one', 'c06:stale_after_nu_assignment')
+    labels.add('nu_reassigned_on_used_filter')
     # (c) normalised filter inside the SED range returns c for a flat spectrum
     lo, hi = min(snu), max(snu)
     inside = min(fnu_ref) >= lo and max(fnu_ref) <= hi
@@ -220,27 +239,7 @@ def e2e_case(draw):
     fmt = draw(st.sampled_from(['v1', 'v2']))
     n = len(pkg['names'])
     if fmt == 'v1' and n >= 2 and draw(st.booleans()):
-        # some SEDs of a per-file package live on another wavelength grid (other length or same length)
-        nap = len(pkg['flux'][0])
-        by_model = [None] * n
-        for m in range(n):
-            if draw(st.booleans()):
-                nw2 = draw(st.sampled_from([len(pkg['wav']), len(pkg['wav']) + 2, 3, 7]))
-                w2 = draw(gen.increasing(nw2, pkg['wav'][0] * 0.8, pkg['wav'][-1] * 1.3, 1.02))
-                if draw(st.booleans()):
-                    # same number of points and same end points, only the interior sampling differs
-                    w = pkg['wav']
-                    nw2 = len(w)
-                    w2 = [w[0]] + [w[i] + draw(st.floats(-0.45, 0.45, allow_nan=False)) * min(w[i] - w[i - 1], w[i + 1] - w[i])
-                                   for i in range(1, nw2 - 1)] + [w[-1]]
-                by_model[m] = w2
-                base = [draw(gen.logfloat(1e-2, 1e3)) for _ in range(nw2)]
-                pkg['flux'][m] = [[base[w] * (1. + 0.37 * ai) * (1. + 0.011 * ((7 * m + 3 * ai + w) % 13)) for w in range(nw2)]
-                                  for ai in range(nap)]
-                pkg['err'][m] = [[v * (0.01 + 0.003 * ((m + 2 * ai + 5 * w) % 7)) for w, v in enumerate(row)]
-                                 for ai, row in enumerate(pkg['flux'][m])]
-        if any(b is not None for b in by_model):
-            pkg['wav_by_model'] = by_model
+        pkg = draw(convpkg.with_model_grids(pkg))
     return {'pkg': pkg, 'filters': filters, 'format': fmt,
             'memmap': draw(st.booleans()), 'a': draw(st.sampled_from([2., 0.5, 3.75])), 'b': draw(st.sampled_from([1., 0.25, 7.]))}
 
